@@ -82,6 +82,7 @@ type Slot struct {
 	Site     int
 	LastSite int
 	Exited   bool
+	Foreign  bool
 	Tag      int
 	lastRun  int // step of the last grant (fair default order)
 
@@ -531,8 +532,26 @@ func (s *Sim) Yield(site int) {
 	sl := s.lookup()
 	if sl.Kind == KUnknown {
 		sl.Kind = KCaller
+		// A goroutine the harness did not start (sim.Go, or a first hook at
+		// HsStart) and the scheduler's hooks do not know: somebody else's.
+		sl.Foreign = site != HsStart
 	}
 	s.park(sl, site)
+}
+
+// ForeignLive counts live goroutines that reached a harness hook without
+// having been started by the harness or by the scheduler's own spawn sites
+// (e.g. a goroutine started per emitted state report).
+//
+//go:norace
+func (s *Sim) ForeignLive() int {
+	n := 0
+	for i := 0; i < s.nslots; i++ {
+		if o := &s.slots[i]; o.Foreign && !o.Exited {
+			n++
+		}
+	}
+	return n
 }
 
 // Hold parks the caller until the condition holds (and it is then chosen).
